@@ -378,3 +378,191 @@ func sectionGrow() {
 	R.Count("appends_that_grew", grew)
 	R.Count("overflow_after_grow", growOverflow)
 }
+
+// ---------------------------------------------------------------- L: writing to what a read handed out
+
+// mutateDerived writes to a bit string that a read method returned, in every
+// way the API offers for a value of one's own: Append (grows it), Grow and
+// WriteBit, On/Off inside its capacity. Returns what it did.
+func mutateDerived(rng *mon.Rng, d *boc.BitString) string {
+	switch rng.Intn(4) {
+	case 0:
+		b := rng.Bits(rng.Range(1, 40))
+		d.Append(*bsOf(b, len(b)))
+		return fmt.Sprintf("Append(%d bits)", len(b))
+	case 1:
+		total := d.GetWriteCursor() + d.BitsAvailableForWrite()
+		n := 0
+		for k := 0; k < 12 && total > 0; k++ {
+			i := rng.Intn(total)
+			if rng.Bool() {
+				d.On(i)
+			} else {
+				d.Off(i)
+			}
+			n++
+		}
+		return fmt.Sprintf("On/Off x%d", n)
+	case 2:
+		g := rng.Range(1, 40)
+		d.Grow(g)
+		for k := 0; k < g; k++ {
+			d.WriteBit(rng.Bool())
+		}
+		return fmt.Sprintf("Grow(%d)+WriteBit x%d", g, g)
+	default:
+		n := 0
+		for d.BitsAvailableForWrite() > 0 && n < 64 {
+			d.WriteBit(rng.Bool())
+			n++
+		}
+		b := rng.Bits(16)
+		d.Append(*bsOf(b, len(b)))
+		return fmt.Sprintf("WriteBit x%d, Append(16 bits)", n)
+	}
+}
+
+// mutateAndCompare (inside the random sequences): the value `got` that op just
+// returned is written to; the source must still hold exactly the bits written
+// to it (the reads that follow in the sequence check the read methods too).
+func mutateAndCompare(t *target, model *rb.List, rng *mon.Rng, got *boc.BitString, op string, rtrace *[]string, wit map[string]any) bool {
+	var what string
+	if !guard("write to "+op+"()", wit, func() { what = mutateDerived(rng, got) }) {
+		return false
+	}
+	*rtrace = append(*rtrace, "write to the result: "+what)
+	R.Count("derived_values_written_to", 1)
+	if now := realBits(t.bitString()); !rb.Equal(now, model.B) {
+		wit["reads"] = *rtrace
+		wit["source_now"], wit["want"] = rb.String(now), rb.String(model.B)
+		viol("source-changed-by-write-to-derived@"+op+"/"+t.name, wit)
+		return false
+	}
+	return true
+}
+
+// sectionMutateDerived: every cursor offset 0..71 x every width 0..72 (all
+// combinations of byte-aligned / unaligned cursor and whole-byte / ragged
+// width), the source continuing behind the part read; sources: a bare string
+// with a tight buffer, a fresh cell (spare buffer), a cell parsed from a BOC.
+func sectionMutateDerived() {
+	const L = 200
+	var aligned int64
+	for kind := 0; kind < 3; kind++ {
+		rng := R.Rng("mutate-derived", kind)
+		bitsv := rng.Bits(L)
+		for off := 0; off <= 71; off++ {
+			for w := 0; w <= 73; w++ {
+				remaining := w == 73 // ReadRemainingBits instead of ReadBits(w)
+				for _, via := range []string{"ReadBits", "Copy"} {
+					if via == "Copy" && (w != 0 || kind != 0) {
+						continue
+					}
+					// a fresh source every time
+					var src *boc.BitString
+					var srcCell *boc.Cell
+					name := "BitString"
+					switch kind {
+					case 0:
+						src = bsOf(bitsv, L)
+					case 1:
+						name = "Cell"
+						srcCell = boc.NewCell()
+						srcCell.WriteBitString(*bsOf(bitsv, L))
+					default:
+						name = "ParsedCell"
+						c := boc.NewCell()
+						c.WriteBitString(*bsOf(bitsv, L))
+						b, err := c.ToBoc()
+						var cs []*boc.Cell
+						if err == nil {
+							cs, err = boc.DeserializeBoc(b)
+						}
+						if err != nil || len(cs) != 1 {
+							R.HarnessError("mutate-derived: cannot pass a cell through a BOC: %v", err)
+							return
+						}
+						srcCell = cs[0]
+					}
+					raw := func() []bool {
+						if srcCell != nil {
+							x := srcCell.RawBitString()
+							return realBits(&x)
+						}
+						return realBits(src)
+					}
+					wit := map[string]any{"source": name, "len": L, "offset": off, "width": w, "derived_by": via}
+					var d boc.BitString
+					var err error
+					want := bitsv[off : off+w%73]
+					if remaining {
+						want = bitsv[off:]
+						wit["derived_by"] = "ReadRemainingBits"
+					}
+					okc := guard(via, wit, func() {
+						switch {
+						case via == "Copy":
+							src.Skip(off)
+							d = src.Copy()
+						case srcCell != nil:
+							srcCell.Skip(off)
+							if remaining {
+								d = srcCell.ReadRemainingBits()
+							} else {
+								d, err = srcCell.ReadBits(w)
+							}
+						default:
+							src.Skip(off)
+							if remaining {
+								d = src.ReadRemainingBits()
+							} else {
+								d, err = src.ReadBits(w)
+							}
+						}
+					})
+					if !okc {
+						continue
+					}
+					if via == "Copy" {
+						want = bitsv
+					}
+					R.Eval(fmt.Sprintf("mutder/%s/%s/%d/%d", name, wit["derived_by"], off, w))
+					if err != nil || !rb.Equal(realBits(&d), want) {
+						viol("value-mismatch@"+fmt.Sprint(wit["derived_by"])+"/before-mutation", wit)
+						continue
+					}
+					if off%8 == 0 && len(want)%8 == 0 {
+						aligned++
+					}
+					mr := R.Rng("mutate-derived-op", kind*10000+off*100+w)
+					for round := 0; round < 3; round++ {
+						var what string
+						if !guard("write to the result of "+fmt.Sprint(wit["derived_by"]), wit, func() { what = mutateDerived(mr, &d) }) {
+							break
+						}
+						wit["written_to_result"] = what
+						if now := raw(); !rb.Equal(now, bitsv) {
+							wit["source_now"], wit["want"] = rb.String(now), rb.String(bitsv)
+							viol("source-changed-by-write-to-derived@"+fmt.Sprint(wit["derived_by"])+"/"+name, wit)
+							break
+						}
+					}
+					// and the rest of the source still reads as written
+					if via != "Copy" && !remaining {
+						rest := bitsv[off+w:]
+						var got boc.BitString
+						if srcCell != nil {
+							got = srcCell.ReadRemainingBits()
+						} else {
+							got = src.ReadRemainingBits()
+						}
+						if !rb.Equal(realBits(&got), rest) {
+							viol("source-changed-by-write-to-derived@"+fmt.Sprint(wit["derived_by"])+"/rest-reads-differently/"+name, wit)
+						}
+					}
+				}
+			}
+		}
+	}
+	R.Count("derived_aligned_whole_byte_cases", aligned)
+}
